@@ -39,6 +39,11 @@ pub enum Action {
     /// threads must not notice (thread ids / TLS slots / table slots of dead
     /// threads get reused or collide only after many thread creations).
     Churn { n: u16, m: u8 },
+    /// the same operation `k` times back-to-back on `tid`, nothing else
+    /// running in between: all `k` outcomes must be identical and the mode
+    /// read every so often must stay put (counters that wrap, state that is
+    /// refreshed every N-th call)
+    Burst { op: Op, k: u32 },
     /// `n` extra threads ALIVE AT THE SAME TIME, all spawned by `tid`: each
     /// sets mode `(m + i) % 8`; then every one of them (and `tid`) reads its
     /// mode back and rounds a witness; then they exit, newest first.
@@ -128,6 +133,7 @@ impl Step {
                 if *probe_late { "late" } else { "none" }
             ),
             Action::Sweep => "* sweep".to_string(),
+            Action::Burst { op, k } => format!("{} burst {} {}", t, k, op.to_text()),
             Action::Churn { n, m } => format!("{} churn n={} m={}", t, n, MODE_NAMES[*m as usize]),
             Action::Crowd { n, m } => format!("{} crowd n={} m={}", t, n, MODE_NAMES[*m as usize]),
         }
@@ -185,6 +191,13 @@ impl Step {
             "die" => Action::Die(Op::parse(&toks[2..])?),
             "exit" => Action::Exit { probe_late: kv("probe") == Some("late") },
             "sweep" => Action::Sweep,
+            "burst" => Action::Burst {
+                k: toks
+                    .get(2)
+                    .and_then(|v| v.parse::<u32>().ok())
+                    .ok_or_else(|| format!("burst needs a count: {}", line))?,
+                op: Op::parse(&toks[3..])?,
+            },
             "crowd" => Action::Crowd {
                 n: kv("n")
                     .and_then(|v| v.parse::<u16>().ok())
